@@ -421,4 +421,56 @@ theorem publishes_mem (l : List Ev) (h : publishes l = true) : Ev.renamePartDest
       · exact Or.inl (List.mem_cons_of_mem _ h)
       · exact Or.inr (List.mem_cons_of_mem _ h)
 
+/-! ### reading the end conditions and the file-system invariant -/
+
+theorem accEnd_spec (cfg : Cfg) (raises ok : Bool) (content : Bytes) (um : Nat) (dm0 : Option Nat) (t : List Obs) (a : A)
+    (h : accEnd cfg raises ok content um dm0 t a = true) :
+    (ok = true → a.s.phase = .done ∧ a.failed = false ∧ raises = false) ∧
+    (ok = false → cfg.rmPartOnExc = true → a.ufail = false →
+      a.s.phase = .init ∨ a.s.phase = .aborted ∨ a.s.phase = .done) ∧
+    (a.s.published = true → allWrites (oks t) = content) ∧
+    (a.s.published = true → a.env = false →
+      (oks t).foldl (modeAfter um) none = some (expectedMode cfg dm0 um)) := by
+  unfold accEnd at h
+  simp only [Bool.and_eq_true, Bool.or_eq_true, Bool.not_eq_true', beq_iff_eq] at h
+  obtain ⟨⟨⟨h1, h2⟩, h3⟩, h4⟩ := h
+  refine ⟨?_, ?_, ?_, ?_⟩
+  · intro hok
+    rcases h1 with h1 | h1
+    · rw [hok] at h1; cases h1
+    · exact ⟨h1.1.1, h1.1.2, h1.2⟩
+  · intro hok hrm huf
+    rcases h2 with ((((h2 | h2) | h2) | h2) | h2) | h2
+    · rw [hok] at h2; cases h2
+    · rw [hrm] at h2; cases h2
+    · rw [huf] at h2; cases h2
+    · exact Or.inl h2
+    · exact Or.inr (Or.inl h2)
+    · exact Or.inr (Or.inr h2)
+  · intro hp
+    rcases h3 with h3 | h3
+    · rw [hp] at h3; cases h3
+    · exact h3
+  · intro hp he
+    rcases h4 with (h4 | h4) | h4
+    · rw [hp] at h4; cases h4
+    · rw [he] at h4; cases h4
+    · exact h4
+
+theorem ginv_init_inodes (ino0 : List Inode) (s : St) (fs : FS) (W : Bytes) (hi : GInv PT ino0 s fs W)
+    (h0 : s.phase = .init) : fs.inodes = ino0 := by
+  obtain ⟨ph, op, db, us⟩ := s
+  simp only at h0; subst h0
+  simp only [GInv] at hi; exact hi.1
+
+theorem ginv_pub (ino0 : List Inode) (s : St) (fs : FS) (W : Bytes) (hi : GInv PT ino0 s fs W)
+    (hp : s.published = true) :
+    fs.dir.dest = some ino0.length ∧ ∃ x, fs.inodes = ino0 ++ [x] ∧ x.durable = W ∧ x.tail = [] := by
+  obtain ⟨ph, op, db, us⟩ := s
+  cases ph <;> simp [St.published] at hp <;> simp only [GInv] at hi
+  · obtain ⟨d1, _, _, x, d4, d5, d6, _⟩ := hi
+    exact ⟨d1, x, d4, d5, d6⟩
+  · obtain ⟨d1, _, _, x, d4, d5, d6, _⟩ := hi
+    exact ⟨d1, x, d4, d5, d6⟩
+
 end C05
